@@ -925,6 +925,12 @@ m("c17-declared-gas-not-reset", "C17", "x/feemarket/keeper/abci.go",
 m("c17-floor-truncated", "C17", "x/feemarket/keeper/eip1559.go",
   "params.MinGasPrice.Ceil().TruncateInt().BigInt()", "params.MinGasPrice.TruncateInt().BigInt()",
   "floor-is-the-ceiling-of-the-minimum", "the floor is rounded down")
+m("c15-selfdestruct-removes-delegator", "C15", "x/evm/keeper/statedb.go",
+  "\tif len(k.stakingKeeper.GetUnbondingDelegations(ctx, cosmosAddr, 1)) > 0 ||\n\t\tlen(k.stakingKeeper.GetDelegatorDelegations(ctx, cosmosAddr, 1)) > 0 {", "\tif len(k.stakingKeeper.GetDelegatorDelegations(ctx, cosmosAddr, 1)) > 0 {",
+  "delegators-are-not-removed", "an account with only unbonding delegations is removed")
+m("c07-selector-slice-unguarded", "C07", "precompiles/distribution/distribution.go",
+  "\tif len(input) < 4 {\n\t\treturn 0\n\t}\n", "",
+  "(precompiles/distribution.Precompile).RequiredGas#prefix-slice-1-guarded", "short calldata panics in RequiredGas again")
 for prop in ("C16", "C07"):
     m("c%s-gas-meter-without-precharge" % prop[1:], prop, "precompiles/common/precompile.go",
       "sdk.NewGasMeter(initialGas + contract.Gas)", "sdk.NewGasMeter(contract.Gas)",
